@@ -193,7 +193,7 @@ Proof.
   intros I Hp EHT. pose proof (proj1 I) as [M HS P]. unfold ptrs_core in P. rewrite EHT in P.
   destruct P as (P1 & P2 & P3 & P4 & P5 & P6 & P7).
   destruct (inv_TH s sp T H (proj1 I) EHT) as (HT & HH & _).
-  assert (PC : pchain c U s) by (apply pstored_pchain; auto; eapply inv_pstored; eauto; apply I).
+  assert (PC : pchain s) by (apply pstored_pchain; auto; exact (inv_pstored s sp (proj1 I))).
   assert (ST : stored s T) by (apply P5; lia).
   pose proof (proj2 I) as DK. unfold disk_ok in DK. rewrite EHT in DK. destruct (DK Hp) as [D1 D2].
   cbn [delete_seq]. rewrite (delete_single_stored s fails nh T [] M PC ST).
@@ -232,10 +232,11 @@ Proof.
   { apply set_tail_form; auto. rewrite (@ch_height c U CH) by auto. apply N.ltb_ge. lia. }
   rewrite F in E. injection E as E.
   assert (Ps2 : ptrs_sound s2) by (apply (inv_ptrs_sound s2 sp2 I2); rewrite <- E; cbn; exact Hp).
-  set (y1 := write (set_tailp s1 (Some (c a))) [WPutTail (h_id (c a))]) in *.
-  eapply st_mem; [apply mem_set_tailp|]. eapply st_write.
-  - apply (ps_disk_pred s2); auto. rewrite <- E. unfold disk_eq. cbn. split_and!; auto.
-  - fold y1. rewrite <- E. apply steps_write1. rewrite E. exact Ps2.
+  subst s2. set (y1 := write (set_tailp s1 (Some (c a))) [WPutTail (h_id (c a))]) in *.
+  apply (st_mem _ s1 (set_tailp s1 (Some (c a))) _ (mem_set_tailp _ _)).
+  apply (st_write _ (set_tailp s1 (Some (c a))) [WPutTail (h_id (c a))]); fold y1.
+  - apply (ps_disk_pred (write y1 [WPutHead (h_id (c H))])); auto. unfold disk_eq. cbn. split_and!; auto.
+  - apply steps_write1. exact Ps2.
 Qed.
 
 End chain.
